@@ -1,5 +1,877 @@
-//! stream `fact` (stub; replaced by its builder)
-pub fn generate(_seed: u64, _cases: usize, _out: &mut Vec<String>) {}
-pub fn run(_toks: &[&str]) -> String {
-    "bad-op".to_string()
+//! Stream `fact` — the factorized representation (`execution/factorized_chunk.rs`,
+//! `factorized_vector.rs`, `factorized_iter.rs`) and its operators
+//! (`operators/factorized_expand.rs`, `factorized_filter.rs`, `factorized_aggregate.rs`).
+//!
+//! Every op line is self-contained. Argument formats:
+//!   chunk   `E` (FactorizedChunk::empty()) | level{/level}
+//!   level   offs;col{;col}     offs = `-` (flat level, first level only: with_flat_level) |
+//!                              n{,n} (offsets: add_level);  col = `-` | val{,val};  val = int | `~` (null)
+//!           all columns of a level have the same length (otherwise bad-op)
+//!   pred    lt:k le:k gt:k ge:k eq:k ne:k (false on null) | null | notnull | all
+//!   graph   <n> <edges>        n nodes (ids 0..n-1), edges `s>t{,s>t}` | `-` (edge i has id i)
+//!   srcs    `-` | val{,val}    the source node column (`~` = null)
+//! Ops:
+//!   flatten <chunk>                    flatten() + logical_row_count()
+//!   iter <chunk>                       logical_row_iter / PrecomputedIter / StreamingIter index tuples
+//!   agg <chunk> <ci>                   FactorizedAggregate::{count,count_column,sum,avg,min,max}(ci).compute
+//!   filt|filtm <chunk> <ci> <pred>     filter_deepest / filter_deepest_multi, then flatten
+//!   chain <n> <edges> <srcs> <hops>    LazyFactorizedChainOperator::next_factorized, then flatten
+//!   chainflat <n> <edges> <srcs> <hops>  the same operator through Operator::next (flattened)
+//!   chainagg <n> <edges> <srcs> <hops> FactorizedAggregateOperator over the chain
+//!   chainfilt <n> <edges> <srcs> <hops> <level> <col> <pred-op> <k> <mat>
+//!                                      FactorizedFilterOperator(ColumnPredicate) drained, each chunk flattened
+//!   expand1 <n> <edges> <srcs>         FactorizedExpandOperator::next (one hop, flattened)
+#![allow(unused)]
+use crate::util::*;
+use grafeo_common::types::{EdgeId, LogicalType, NodeId, Value};
+use grafeo_core::execution::operators::{
+    ColumnPredicate, ExpandStep, FactorizedAggregate, FactorizedAggregateOperator, FactorizedCompareOp,
+    FactorizedExpandOperator, FactorizedFilterOperator, FactorizedOperator, LazyFactorizedChainOperator,
+    Operator, OperatorResult,
+};
+use grafeo_core::execution::{DataChunk, FactorizedChunk, PrecomputedIter, StreamingIter, ValueVector};
+use grafeo_core::graph::Direction;
+use grafeo_core::graph::lpg::LpgStore;
+use std::sync::Arc;
+
+type V = Option<i64>;
+
+fn p_val(t: &str) -> Option<V> {
+    if t == "~" { Some(None) } else { t.parse::<i64>().ok().map(Some) }
 }
+fn p_vals(s: &str) -> Option<Vec<V>> {
+    if s == "-" {
+        return Some(vec![]);
+    }
+    s.split(',').map(p_val).collect()
+}
+fn p_nats(s: &str) -> Option<Vec<u32>> {
+    if s == "-" {
+        return Some(vec![]);
+    }
+    s.split(',').map(|t| if t.starts_with('+') { None } else { t.parse::<u32>().ok() }).collect()
+}
+fn p_nat(s: &str) -> Option<usize> {
+    if s.starts_with('+') { None } else { s.parse::<usize>().ok() }
+}
+
+struct LevelD {
+    offs: Option<Vec<u32>>,
+    cols: Vec<Vec<V>>,
+}
+
+fn p_level(s: &str) -> Option<LevelD> {
+    let parts: Vec<&str> = s.split(';').collect();
+    if parts.len() < 2 {
+        return None;
+    }
+    let offs = if parts[0] == "-" { None } else { Some(p_nats(parts[0])?) };
+    let cols: Option<Vec<Vec<V>>> = parts[1..].iter().map(|c| p_vals(c)).collect();
+    let cols = cols?;
+    let n = cols[0].len();
+    if cols.iter().any(|c| c.len() != n) {
+        return None;
+    }
+    Some(LevelD { offs, cols })
+}
+
+fn vv(vals: &[V]) -> ValueVector {
+    let mut v = ValueVector::with_type(LogicalType::Int64);
+    for x in vals {
+        match x {
+            Some(i) => v.push_value(Value::Int64(*i)),
+            None => v.push_value(Value::Null),
+        }
+    }
+    v
+}
+
+fn names(k: usize, lvl: usize) -> Vec<String> {
+    (0..k).map(|i| format!("l{}c{}", lvl, i)).collect()
+}
+
+/// None = unparseable; the build itself may panic (caught by `guarded`)
+fn parse_chunk(s: &str) -> Option<Vec<LevelD>> {
+    if s == "E" {
+        return Some(vec![]);
+    }
+    let lv: Option<Vec<LevelD>> = s.split('/').map(p_level).collect();
+    let lv = lv?;
+    if lv.is_empty() || lv[1..].iter().any(|l| l.offs.is_none()) {
+        return None;
+    }
+    Some(lv)
+}
+
+fn build_chunk(lv: &[LevelD]) -> FactorizedChunk {
+    if lv.is_empty() {
+        return FactorizedChunk::empty();
+    }
+    let mut c = match &lv[0].offs {
+        None => FactorizedChunk::with_flat_level(lv[0].cols.iter().map(|c| vv(c)).collect(), names(lv[0].cols.len(), 0)),
+        Some(o) => {
+            let mut c = FactorizedChunk::empty();
+            c.add_level(lv[0].cols.iter().map(|c| vv(c)).collect(), names(lv[0].cols.len(), 0), o);
+            c
+        }
+    };
+    for (i, l) in lv.iter().enumerate().skip(1) {
+        c.add_level(l.cols.iter().map(|c| vv(c)).collect(), names(l.cols.len(), i), l.offs.as_ref().unwrap());
+    }
+    c
+}
+
+fn val_str(v: &Value) -> String {
+    match v {
+        Value::Null => "~".to_string(),
+        Value::Int64(i) => i.to_string(),
+        Value::Float64(f) => f64_str(*f),
+        other => format!("?{:?}", other),
+    }
+}
+
+/// a float that is an exact integer below 2^53 prints as that integer, anything else as its bit pattern
+fn f64_str(f: f64) -> String {
+    if f.is_finite() && f.fract() == 0.0 && f.abs() < 9007199254740992.0 {
+        format!("{}", f as i64)
+    } else {
+        format!("bits:{:016x}", f.to_bits())
+    }
+}
+
+fn gcd(a: u128, b: u128) -> u128 {
+    if b == 0 { a } else { gcd(b, a % b) }
+}
+
+fn frac_str(num: i64, den: u64) -> String {
+    if den == 0 {
+        return "div0".to_string();
+    }
+    let g = gcd(num.unsigned_abs() as u128, den as u128);
+    if g == 0 {
+        return "0/1".to_string();
+    }
+    format!("{}/{}", (num as i128) / (g as i128), (den as u128) / g)
+}
+
+fn col_str(c: &ValueVector) -> String {
+    if c.len() == 0 {
+        return "-".to_string();
+    }
+    (0..c.len()).map(|i| c.get_value(i).map_or("?".to_string(), |v| val_str(&v))).collect::<Vec<_>>().join(",")
+}
+
+fn flat_str(d: &DataChunk) -> String {
+    let cols = if d.column_count() == 0 {
+        "-".to_string()
+    } else {
+        d.columns().iter().map(col_str).collect::<Vec<_>>().join("|")
+    };
+    format!("k={} n={} {}", d.column_count(), d.row_count(), cols)
+}
+
+fn chunk_str(c: &FactorizedChunk) -> String {
+    format!("{} lrc={}", flat_str(&c.flatten()), c.logical_row_count())
+}
+
+fn tup_str(ts: &[Vec<usize>]) -> String {
+    if ts.is_empty() {
+        return "-".to_string();
+    }
+    ts.iter().map(|t| t.iter().map(|x| x.to_string()).collect::<Vec<_>>().join(".")).collect::<Vec<_>>().join(";")
+}
+
+#[derive(Clone, Copy)]
+enum Pred {
+    Lt(i64),
+    Le(i64),
+    Gt(i64),
+    Ge(i64),
+    Eq(i64),
+    Ne(i64),
+    IsNull,
+    NotNull,
+    All,
+}
+
+impl Pred {
+    fn eval(&self, v: &Value) -> bool {
+        match (self, v) {
+            (Pred::IsNull, v) => matches!(v, Value::Null),
+            (Pred::NotNull, v) => !matches!(v, Value::Null),
+            (Pred::All, _) => true,
+            (Pred::Lt(k), Value::Int64(x)) => x < k,
+            (Pred::Le(k), Value::Int64(x)) => x <= k,
+            (Pred::Gt(k), Value::Int64(x)) => x > k,
+            (Pred::Ge(k), Value::Int64(x)) => x >= k,
+            (Pred::Eq(k), Value::Int64(x)) => x == k,
+            (Pred::Ne(k), Value::Int64(x)) => x != k,
+            _ => false,
+        }
+    }
+}
+
+fn p_pred(s: &str) -> Option<Pred> {
+    match s {
+        "null" => return Some(Pred::IsNull),
+        "notnull" => return Some(Pred::NotNull),
+        "all" => return Some(Pred::All),
+        _ => {}
+    }
+    let (o, k) = s.split_once(':')?;
+    if k.contains(':') {
+        return None;
+    }
+    let k = k.parse::<i64>().ok()?;
+    Some(match o {
+        "lt" => Pred::Lt(k),
+        "le" => Pred::Le(k),
+        "gt" => Pred::Gt(k),
+        "ge" => Pred::Ge(k),
+        "eq" => Pred::Eq(k),
+        "ne" => Pred::Ne(k),
+        _ => return None,
+    })
+}
+
+// ───────────────────────── graphs and operators ─────────────────────────
+
+fn p_edges(s: &str) -> Option<Vec<(u64, u64)>> {
+    if s == "-" {
+        return Some(vec![]);
+    }
+    s.split(',')
+        .map(|e| {
+            let (a, b) = e.split_once('>')?;
+            if a.starts_with('+') || b.starts_with('+') {
+                return None;
+            }
+            Some((a.parse::<u64>().ok()?, b.parse::<u64>().ok()?))
+        })
+        .collect()
+}
+
+fn p_srcs(s: &str) -> Option<Vec<Option<u64>>> {
+    if s == "-" {
+        return Some(vec![]);
+    }
+    s.split(',')
+        .map(|t| if t == "~" { Some(None) } else if t.starts_with('+') { None } else { t.parse::<u64>().ok().map(Some) })
+        .collect()
+}
+
+/// node ids are 0..n-1 and edge i has id i (checked); edges touching a missing node are rejected by the parser
+fn build_store(n: usize, edges: &[(u64, u64)]) -> Option<Arc<LpgStore>> {
+    let store = LpgStore::new();
+    for i in 0..n {
+        let id = store.create_node(&["N"]);
+        if id.as_u64() != i as u64 {
+            return None;
+        }
+    }
+    for (i, (s, t)) in edges.iter().enumerate() {
+        let id = store.create_edge(NodeId::new(*s), NodeId::new(*t), "R");
+        if id.as_u64() != i as u64 {
+            return None;
+        }
+    }
+    Some(Arc::new(store))
+}
+
+struct OneChunk(Option<DataChunk>);
+impl Operator for OneChunk {
+    fn next(&mut self) -> OperatorResult {
+        Ok(self.0.take())
+    }
+    fn reset(&mut self) {}
+    fn name(&self) -> &'static str {
+        "OneChunk"
+    }
+}
+
+fn src_op(srcs: &[Option<u64>]) -> Box<dyn Operator> {
+    let mut v = ValueVector::with_type(LogicalType::Node);
+    for s in srcs {
+        match s {
+            Some(i) => v.push_node_id(NodeId::new(*i)),
+            None => v.push_value(Value::Null),
+        }
+    }
+    Box::new(OneChunk(Some(DataChunk::new(vec![v]))))
+}
+
+fn steps(hops: usize) -> Vec<ExpandStep> {
+    (0..hops)
+        .map(|h| ExpandStep { source_column: if h == 0 { 0 } else { 1 }, direction: Direction::Outgoing, edge_type: None })
+        .collect()
+}
+
+struct G {
+    store: Arc<LpgStore>,
+    srcs: Vec<Option<u64>>,
+    hops: usize,
+}
+
+fn p_graph(t: &[&str]) -> Option<G> {
+    let n = p_nat(t[0])?;
+    let edges = p_edges(t[1])?;
+    if n > 64 || edges.iter().any(|(a, b)| *a >= n as u64 || *b >= n as u64) {
+        return None;
+    }
+    let srcs = p_srcs(t[2])?;
+    let hops = p_nat(t[3])?;
+    if hops == 0 || hops > 6 {
+        return None;
+    }
+    Some(G { store: build_store(n, &edges)?, srcs, hops })
+}
+
+fn lazy(g: &G) -> LazyFactorizedChainOperator {
+    LazyFactorizedChainOperator::new(Arc::clone(&g.store), src_op(&g.srcs), steps(g.hops))
+}
+
+pub fn run(toks: &[&str]) -> String {
+    if toks.is_empty() {
+        return "bad-op".to_string();
+    }
+    let t = toks;
+    match (t[0], t.len()) {
+        ("flatten", 2) => {
+            let Some(lv) = parse_chunk(t[1]) else { return "bad-op".into() };
+            guarded(|| chunk_str(&build_chunk(&lv)))
+        }
+        ("iter", 2) => {
+            let Some(lv) = parse_chunk(t[1]) else { return "bad-op".into() };
+            guarded(|| {
+                let c = build_chunk(&lv);
+                let ri: Vec<Vec<usize>> = c.logical_row_iter().collect();
+                let pc: Vec<Vec<usize>> = PrecomputedIter::new(&c).rows().map(|_| vec![]).collect();
+                let pcn = pc.len();
+                let pi = PrecomputedIter::new(&c);
+                let pc: Vec<Vec<usize>> = (0..pcn).map(|i| pi.get(i).unwrap().as_slice().to_vec()).collect();
+                let st: Vec<Vec<usize>> = StreamingIter::new(&c).map(|r| r.as_slice().to_vec()).collect();
+                format!("ri={} pc={} st={}", tup_str(&ri), tup_str(&pc), tup_str(&st))
+            })
+        }
+        ("agg", 3) => {
+            let Some(lv) = parse_chunk(t[1]) else { return "bad-op".into() };
+            let Some(ci) = p_nat(t[2]) else { return "bad-op".into() };
+            guarded(|| {
+                let c = build_chunk(&lv);
+                let count = FactorizedAggregate::count().compute(&c);
+                let cc = FactorizedAggregate::count_column(ci).compute(&c);
+                let sum = FactorizedAggregate::sum(ci).compute(&c);
+                let avg = FactorizedAggregate::avg(ci).compute(&c);
+                let min = FactorizedAggregate::min(ci).compute(&c);
+                let max = FactorizedAggregate::max(ci).compute(&c);
+                format!(
+                    "count={} cc={} sum={} avg={} min={} max={}",
+                    val_str(&count),
+                    val_str(&cc),
+                    val_str(&sum),
+                    avg_str(&avg, &sum, c.logical_row_count()),
+                    val_str(&min),
+                    val_str(&max)
+                )
+            })
+        }
+        ("filt", 4) | ("filtm", 4) => {
+            let Some(lv) = parse_chunk(t[1]) else { return "bad-op".into() };
+            let Some(ci) = p_nat(t[2]) else { return "bad-op".into() };
+            let Some(p) = p_pred(t[3]) else { return "bad-op".into() };
+            if t[0] == "filtm" && !(lv.last().map_or(false, |l| ci < l.cols.len())) {
+                // the multi-column form reads values[ci]: both sides reject a column that is not there
+                return guarded(|| {
+                    let _ = build_chunk(&lv);
+                    "bad-op".to_string()
+                });
+            }
+            guarded(|| {
+                let c = build_chunk(&lv);
+                let r = if t[0] == "filt" {
+                    c.filter_deepest(ci, |v| p.eval(v))
+                } else {
+                    c.filter_deepest_multi(|vs| vs.get(ci).map_or(false, |v| p.eval(v)))
+                };
+                match r {
+                    None => "none".to_string(),
+                    Some(c2) => chunk_str(&c2),
+                }
+            })
+        }
+        ("chain", 5) | ("chainflat", 5) | ("chainagg", 5) | ("expand1", 4) => {
+            let mut tt: Vec<&str> = t[1..].to_vec();
+            if t[0] == "expand1" {
+                tt.push("1");
+            }
+            let Some(g) = p_graph(&tt) else { return "bad-op".into() };
+            guarded(|| match t[0] {
+                "chain" => {
+                    let mut op = lazy(&g);
+                    match op.next_factorized() {
+                        Err(_) => "err".to_string(),
+                        Ok(None) => "none".to_string(),
+                        Ok(Some(c)) => chunk_str(&c),
+                    }
+                }
+                "chainflat" => {
+                    let mut op = lazy(&g);
+                    let mut out = Vec::new();
+                    loop {
+                        match Operator::next(&mut op) {
+                            Err(_) => return "err".to_string(),
+                            Ok(None) => break,
+                            Ok(Some(d)) => out.push(flat_str(&d)),
+                        }
+                        if out.len() > 4 {
+                            break;
+                        }
+                    }
+                    if out.is_empty() { "none".to_string() } else { out.join(" ++ ") }
+                }
+                "expand1" => {
+                    let mut op = FactorizedExpandOperator::new(
+                        Arc::clone(&g.store),
+                        src_op(&g.srcs),
+                        0,
+                        Direction::Outgoing,
+                        None,
+                    );
+                    let mut out = Vec::new();
+                    loop {
+                        match Operator::next(&mut op) {
+                            Err(_) => return "err".to_string(),
+                            Ok(None) => break,
+                            Ok(Some(d)) => out.push(flat_str(&d)),
+                        }
+                        if out.len() > 4 {
+                            break;
+                        }
+                    }
+                    if out.is_empty() { "none".to_string() } else { out.join(" ++ ") }
+                }
+                _ => {
+                    let aggs = vec![
+                        FactorizedAggregate::count(),
+                        FactorizedAggregate::count_column(1),
+                        FactorizedAggregate::sum(1),
+                        FactorizedAggregate::avg(1),
+                        FactorizedAggregate::min(1),
+                        FactorizedAggregate::max(1),
+                    ];
+                    let mut op = FactorizedAggregateOperator::new(lazy(&g), aggs);
+                    match Operator::next(&mut op) {
+                        Err(_) => "err".to_string(),
+                        Ok(None) => "none".to_string(),
+                        Ok(Some(d)) => {
+                            let v: Vec<Value> =
+                                (0..6).map(|i| d.column(i).and_then(|c| c.get_value(0)).unwrap_or(Value::Null)).collect();
+                            let count = match &v[0] {
+                                Value::Int64(i) => *i as usize,
+                                _ => 0,
+                            };
+                            let again = match Operator::next(&mut op) {
+                                Ok(None) => "",
+                                _ => " again",
+                            };
+                            format!(
+                                "count={} cc={} sum={} avg={} min={} max={}{}",
+                                val_str(&v[0]),
+                                val_str(&v[1]),
+                                val_str(&v[2]),
+                                avg_str(&v[3], &v[2], count),
+                                val_str(&v[4]),
+                                val_str(&v[5]),
+                                again
+                            )
+                        }
+                    }
+                }
+            })
+        }
+        ("chainfilt", 10) => {
+            let Some(g) = p_graph(&t[1..5]) else { return "bad-op".into() };
+            let Some(level) = p_nat(t[5]) else { return "bad-op".into() };
+            let Some(col) = p_nat(t[6]) else { return "bad-op".into() };
+            let op = match t[7] {
+                "lt" => FactorizedCompareOp::Lt,
+                "le" => FactorizedCompareOp::Le,
+                "gt" => FactorizedCompareOp::Gt,
+                "ge" => FactorizedCompareOp::Ge,
+                "eq" => FactorizedCompareOp::Eq,
+                "ne" => FactorizedCompareOp::Ne,
+                _ => return "bad-op".into(),
+            };
+            let Ok(k) = t[8].parse::<i64>() else { return "bad-op".into() };
+            let mat = match t[9] {
+                "0" => false,
+                "1" => true,
+                _ => return "bad-op".into(),
+            };
+            guarded(|| {
+                let pred = ColumnPredicate::new(level, col, op, Value::Int64(k));
+                let mut f = FactorizedFilterOperator::new(lazy(&g), Box::new(pred)).materialize(mat);
+                let mut out = Vec::new();
+                loop {
+                    match f.next_factorized() {
+                        Err(_) => return "err".to_string(),
+                        Ok(None) => break,
+                        Ok(Some(c)) => {
+                            out.push(chunk_str(&c));
+                        }
+                    }
+                    if out.len() > 4 {
+                        break;
+                    }
+                }
+                if out.is_empty() { "none".to_string() } else { out.join(" ++ ") }
+            })
+        }
+        _ => "bad-op".to_string(),
+    }
+}
+
+/// avg = sum / logical_row_count computed in f64: printed as that (reduced) fraction when the bits
+/// agree with the hardware division of the two integers the implementation itself reported
+fn avg_str(avg: &Value, sum: &Value, count: usize) -> String {
+    match avg {
+        Value::Null => "~".to_string(),
+        Value::Float64(a) => {
+            if let Value::Float64(s) = sum {
+                if s.is_finite() && s.fract() == 0.0 && s.abs() < 9007199254740992.0 && count > 0 {
+                    let q = *s / (count as f64);
+                    if q.to_bits() == a.to_bits() {
+                        return frac_str(*s as i64, count as u64);
+                    }
+                }
+            }
+            format!("bits:{:016x}", a.to_bits())
+        }
+        other => val_str(other),
+    }
+}
+
+// ───────────────────────── generator ─────────────────────────
+
+fn g_val(r: &mut Rng, nulls: bool) -> String {
+    if nulls && r.chance(1, 6) { "~".to_string() } else { (r.range(0, 12) as i64 - 4).to_string() }
+}
+
+fn g_col(r: &mut Rng, n: usize, nulls: bool) -> String {
+    if n == 0 {
+        return "-".to_string();
+    }
+    (0..n).map(|_| g_val(r, nulls)).collect::<Vec<_>>().join(",")
+}
+
+/// a fan-out: 0, 1 or many
+fn g_fan(r: &mut Rng, style: u64) -> usize {
+    match style {
+        0 => r.range(0, 3) as usize,
+        1 => 1,
+        2 => if r.chance(1, 2) { 0 } else { r.range(1, 4) as usize },
+        _ => if r.chance(4, 5) { 0 } else { 2 },
+    }
+}
+
+/// a well-formed chunk description: `levels` levels, the first flat (or built by add_level on the empty chunk)
+fn g_chunk(r: &mut Rng, stats: &mut Stats) -> String {
+    if r.chance(1, 40) {
+        return "E".to_string();
+    }
+    let levels = r.range(1, 4) as usize;
+    let nulls = r.chance(1, 2);
+    let style = r.below(4);
+    let n0 = if r.chance(1, 12) { 0 } else { r.range(1, 4) as usize };
+    let mut out = Vec::new();
+    let k0 = r.range(1, 2) as usize;
+    let first_by_add = r.chance(1, 8);
+    let mut prev = n0;
+    if first_by_add {
+        // add_level on the empty chunk: offsets over `p` pseudo parents
+        let p = r.range(0, 3) as usize;
+        let mut offs = vec![0u32];
+        for _ in 0..p {
+            let f = g_fan(r, style) as u32;
+            offs.push(offs.last().unwrap() + f);
+        }
+        prev = *offs.last().unwrap() as usize;
+        let cols: Vec<String> = (0..k0).map(|_| g_col(r, prev, nulls)).collect();
+        out.push(format!("{};{}", join(&offs), cols.join(";")));
+    } else {
+        let cols: Vec<String> = (0..k0).map(|_| g_col(r, n0, nulls)).collect();
+        out.push(format!("-;{}", cols.join(";")));
+    }
+    for _ in 1..levels {
+        let mut offs = vec![0u32];
+        for _ in 0..prev {
+            let f = g_fan(r, style) as u32;
+            if f == 0 {
+                stats.fan0 += 1;
+            } else if f == 1 {
+                stats.fan1 += 1;
+            } else {
+                stats.fanm += 1;
+            }
+            offs.push(offs.last().unwrap() + f);
+        }
+        let n = *offs.last().unwrap() as usize;
+        let k = r.range(1, 2) as usize;
+        let cols: Vec<String> = (0..k).map(|_| g_col(r, n, nulls)).collect();
+        out.push(format!("{};{}", join(&offs), cols.join(";")));
+        prev = n;
+    }
+    stats.levels[levels.min(4)] += 1;
+    out.join("/")
+}
+
+/// damage a well-formed description: wrong offsets (panics or parent-count mismatches)
+fn g_damage(r: &mut Rng, s: &str) -> String {
+    let mut levels: Vec<String> = s.split('/').map(|x| x.to_string()).collect();
+    if levels.len() < 2 || s == "E" {
+        return s.to_string();
+    }
+    let i = r.range(1, levels.len() as u64 - 1) as usize;
+    let parts: Vec<String> = levels[i].split(';').map(|x| x.to_string()).collect();
+    let mut offs: Vec<u32> = p_nats(&parts[0]).unwrap_or_default();
+    match r.below(5) {
+        0 => {
+            offs.pop();
+        }
+        1 => {
+            let l = *offs.last().unwrap_or(&0);
+            offs.push(l);
+        }
+        2 => {
+            if let Some(l) = offs.last_mut() {
+                *l += 1;
+            }
+        }
+        3 => {
+            if offs.len() > 1 {
+                offs.swap(0, 1);
+            }
+        }
+        _ => {
+            offs.clear();
+        }
+    }
+    let o = if offs.is_empty() { "-".to_string() } else { join(&offs) };
+    levels[i] = format!("{};{}", o, parts[1..].join(";"));
+    levels.join("/")
+}
+
+fn g_pred(r: &mut Rng) -> String {
+    match r.below(9) {
+        0 => "null".to_string(),
+        1 => "notnull".to_string(),
+        2 => "all".to_string(),
+        3 => format!("lt:{}", r.range(0, 10) as i64 - 3),
+        4 => format!("le:{}", r.range(0, 10) as i64 - 3),
+        5 => format!("gt:{}", r.range(0, 10) as i64 - 3),
+        6 => format!("ge:{}", r.range(0, 10) as i64 - 3),
+        7 => format!("eq:{}", r.range(0, 10) as i64 - 3),
+        _ => format!("ne:{}", r.range(0, 10) as i64 - 3),
+    }
+}
+
+fn g_graph(r: &mut Rng) -> String {
+    let n = r.range(1, 6) as usize;
+    let dens = r.below(4);
+    let m = match dens {
+        0 => 0,
+        1 => r.range(1, 3),
+        2 => r.range(3, 8),
+        _ => r.range(6, 14),
+    } as usize;
+    let edges: Vec<String> = (0..m).map(|_| format!("{}>{}", r.below(n as u64), r.below(n as u64))).collect();
+    let ns = if r.chance(1, 12) { 0 } else { r.range(1, 4) as usize };
+    let srcs: Vec<String> = (0..ns)
+        .map(|_| {
+            if r.chance(1, 25) {
+                "~".to_string()
+            } else if r.chance(1, 15) {
+                (n as u64 + r.below(3)).to_string()
+            } else {
+                r.below(n as u64).to_string()
+            }
+        })
+        .collect();
+    format!(
+        "{} {} {}",
+        n,
+        if edges.is_empty() { "-".to_string() } else { edges.join(",") },
+        if srcs.is_empty() { "-".to_string() } else { srcs.join(",") }
+    )
+}
+
+#[derive(Default)]
+struct Stats {
+    fan0: usize,
+    fan1: usize,
+    fanm: usize,
+    levels: [usize; 5],
+    ops: std::collections::BTreeMap<&'static str, usize>,
+}
+
+pub fn generate(seed: u64, cases: usize, out: &mut Vec<String>) {
+    let mut r = Rng::new(seed ^ 0xFAC7_0123_4567_89AB);
+    let mut stats = Stats::default();
+    out.push(format!("# case 0 seed {}", seed));
+    for l in BOUNDARY {
+        out.push(format!("fact {}", l));
+    }
+    for case in 1..=cases {
+        out.push(format!("# case {} seed {}", case, seed));
+        let lines = r.range(4, 8);
+        for _ in 0..lines {
+            let pick = r.below(100);
+            let line = if pick < 14 {
+                *stats.ops.entry("flatten").or_default() += 1;
+                format!("flatten {}", g_chunk(&mut r, &mut stats))
+            } else if pick < 26 {
+                *stats.ops.entry("iter").or_default() += 1;
+                format!("iter {}", g_chunk(&mut r, &mut stats))
+            } else if pick < 40 {
+                *stats.ops.entry("agg").or_default() += 1;
+                let c = g_chunk(&mut r, &mut stats);
+                let ci = if r.chance(1, 10) { 2 } else { r.below(2) };
+                format!("agg {} {}", c, ci)
+            } else if pick < 54 {
+                let op = if r.chance(1, 3) { "filtm" } else { "filt" };
+                *stats.ops.entry(op).or_default() += 1;
+                let c = g_chunk(&mut r, &mut stats);
+                let ci = if r.chance(1, 12) { 2 } else { r.below(2) };
+                format!("{} {} {} {}", op, c, ci, g_pred(&mut r))
+            } else if pick < 60 {
+                // damaged descriptions
+                *stats.ops.entry("damaged").or_default() += 1;
+                let c = g_chunk(&mut r, &mut stats);
+                let d = g_damage(&mut r, &c);
+                match r.below(4) {
+                    0 => format!("flatten {}", d),
+                    1 => format!("iter {}", d),
+                    2 => format!("agg {} 0", d),
+                    _ => format!("filt {} 0 {}", d, g_pred(&mut r)),
+                }
+            } else if pick < 70 {
+                *stats.ops.entry("chain").or_default() += 1;
+                format!("chain {} {}", g_graph(&mut r), r.range(1, 4))
+            } else if pick < 76 {
+                *stats.ops.entry("chainflat").or_default() += 1;
+                format!("chainflat {} {}", g_graph(&mut r), r.range(1, 3))
+            } else if pick < 84 {
+                *stats.ops.entry("chainagg").or_default() += 1;
+                format!("chainagg {} {}", g_graph(&mut r), r.range(1, 4))
+            } else if pick < 89 {
+                *stats.ops.entry("expand1").or_default() += 1;
+                format!("expand1 {}", g_graph(&mut r))
+            } else if pick < 96 {
+                *stats.ops.entry("chainfilt").or_default() += 1;
+                let hops = r.range(1, 3);
+                let level = if r.chance(1, 10) { hops + 1 } else { r.range(0, hops) };
+                let col = if r.chance(1, 10) { 2 } else { r.below(2) };
+                let op = *r.pick(&["lt", "le", "gt", "ge", "eq", "ne"]);
+                format!("chainfilt {} {} {} {} {} {} {}", g_graph(&mut r), hops, level, col, op, r.below(8), r.below(2))
+            } else {
+                *stats.ops.entry("malformed").or_default() += 1;
+                (*r.pick(MALFORMED)).to_string()
+            };
+            out.push(format!("fact {}", line));
+        }
+    }
+    if std::env::var("VH_STATS").is_ok() {
+        eprintln!(
+            "fact stats: fan-out 0/1/many = {}/{}/{}; chunks with 1/2/3/4 levels = {}/{}/{}/{}; ops = {:?}",
+            stats.fan0, stats.fan1, stats.fanm, stats.levels[1], stats.levels[2], stats.levels[3], stats.levels[4], stats.ops
+        );
+    }
+}
+
+const MALFORMED: &[&str] = &[
+    "flatten",
+    "flatten -",
+    "flatten -;1,2/-;3",
+    "flatten -;1,2;3",
+    "flatten 0;1",
+    "iter -;x",
+    "agg -;1,2",
+    "agg -;1,2 x",
+    "filt -;1,2 0 between:1",
+    "filt -;1,2 0 lt:",
+    "filtm -;1,2 5 all",
+    "chain 2 0>1 0",
+    "chain 2 0>5 0 1",
+    "chain 2 0>1 0 0",
+    "chainagg 2 0-1 0 1",
+    "chainfilt 2 0>1 0 1 1 1 zz 1 0",
+    "nope 1",
+];
+
+const BOUNDARY: &[&str] = &[
+    "flatten E",
+    "iter E",
+    "agg E 0",
+    "filt E 0 all",
+    "flatten -;-",
+    "iter -;-",
+    "agg -;- 0",
+    "flatten -;1,2,3",
+    "flatten -;1,2;~,5",
+    "iter -;1,2,3",
+    "flatten -;1,2/0,2,3;10,11,12",
+    "iter -;1,2/0,2,3;10,11,12",
+    "flatten -;1,2/0,0,0;-",
+    "iter -;1,2/0,0,0;-",
+    "flatten -;1,2,3/0,0,2,2;7,8",
+    "iter -;1,2,3/0,0,2,2;7,8",
+    "flatten -;1,2/0,1,2;5,6/0,0,2;8,9",
+    "iter -;1,2/0,1,2;5,6/0,0,2;8,9",
+    "iter -;1,2/0,1,2;5,6/0,2,2;8,9",
+    "iter -;1,2,3/0,1,1,2;5,6/0,1,3;7,8,9/0,0,1,1;4",
+    "flatten -;1,2,3/0,1,1,2;5,6/0,1,3;7,8,9/0,0,1,1;4",
+    "flatten 0,2,3;10,11,12",
+    "iter 0,2,3;10,11,12",
+    "flatten 0;-",
+    "flatten -;1,2/0,2;10,11",
+    "iter -;1,2/0,2;10,11",
+    "flatten -;1/0,1,2,3;10,11,12",
+    "flatten -;1,2/0,2,1;10",
+    "flatten -;1,2/0,2,3;10,11",
+    "flatten -;1,2/-;10,11",
+    "agg -;1,2,3 0",
+    "agg -;1,~,3 0",
+    "agg -;~,~ 0",
+    "agg -;1,2/0,2,3;10,~,12 0",
+    "agg -;1,2/0,2,3;~,~,~ 0",
+    "agg -;1,2/0,2,3;10,11,12;3,2,1 1",
+    "agg -;1,2/0,2,3;10,11,12 4",
+    "filt -;1,2,3 0 gt:1",
+    "filt -;1,2,3 0 gt:9",
+    "filt -;1,2/0,2,3;10,11,12 0 ge:11",
+    "filt -;1,2/0,2,3;10,11,12 0 lt:11",
+    "filt -;1,2/0,2,3;10,11,12 0 lt:0",
+    "filt -;1,2/0,2,3;10,~,12 0 null",
+    "filtm -;1,2/0,2,3;10,11,12;1,2,3 1 ge:2",
+    "filt -;1,2/0,2,3;10,11,12 3 all",
+    "chain 3 0>1,1>2,0>2 0 1",
+    "chain 3 0>1,1>2,0>2 0 2",
+    "chain 3 0>1,1>2,0>2 0 3",
+    "chain 3 0>1,1>2,0>2 0,1,2 2",
+    "chain 3 - 0,1 1",
+    "chain 3 0>1 - 1",
+    "chain 3 0>1 ~ 1",
+    "chain 3 0>1 0,7 1",
+    "chainflat 3 0>1,1>2,0>2 0 2",
+    "chainflat 3 - 0,1 1",
+    "expand1 3 0>1,1>2,0>2 0,1,2",
+    "expand1 3 - 0,1",
+    "chainagg 3 0>1,1>2,0>2 0 2",
+    "chainagg 3 - 0 1",
+    "chainagg 3 0>1 0 2",
+    "chainfilt 3 0>1,1>2,0>2 0,1 1 1 1 ge 2 0",
+    "chainfilt 3 0>1,1>2,0>2 0,1 1 1 1 ge 2 1",
+    "chainfilt 3 0>1,1>2,0>2 0,1 2 1 1 ge 2 1",
+    "chainfilt 3 0>1,1>2,0>2 0,1 1 1 1 ge 9 0",
+    "chainfilt 3 0>1,1>2,0>2 0,1 1 0 0 eq 1 0",
+];
